@@ -36,9 +36,10 @@ func (e *invalidParamsError) Error() string { return e.message }
 // given types. It returns the parsed values or an error when the args could not be
 // parsed. Missing optional arguments are returned as reflect.Zero values.
 func parsePositionalArguments(rawArgs json.RawMessage, types []reflect.Type) ([]reflect.Value, error) {
-	// No args
+	// No args is the same as an empty args array, so that missing required
+	// arguments are reported as invalid params.
 	if len(rawArgs) == 0 || string(rawArgs) == "null" {
-		return []reflect.Value{}, nil
+		rawArgs = json.RawMessage("[]")
 	}
 	// Read beginning of the args array.
 	dec := json.NewDecoder(bytes.NewReader(rawArgs))
